@@ -144,6 +144,8 @@ class PMEval(Evaluator):
                 return CX(f"({a}, {b})")
             if full2 == "Complex::zero":
                 return CX("(RtoC 0)")
+            if full2 == "Complex::i" and not e[2]:
+                return CX("(0, 1)")
             if full2 in ("PerMeter4::new", "JsiNorm::new", "JSIUnits::new", "PerMeter3::new", "JsiSinglesNorm::new", "Wavenumber::new"):
                 return self.ev(e[2][0], env)
             if segs[-1] == "get_pm_integrand" and len(segs) == 1:
@@ -159,6 +161,13 @@ class PMEval(Evaluator):
                     self.fail(f"{segs[-1]} called with unexpected arguments {args!r}", e)
                 t = f"({spec['coq']}{' Q' if 'Q' in spec['args'] else ''} p)"
                 return CX(t) if spec["ty"] == "C" else R(t)
+            # helper of another file applied to complex values (e.g. math::sq): evaluate it with a complex-aware evaluator
+            if len(segs) == 1 and segs[0] not in env:
+                it = self.lookup_fn(segs[0])
+                if it is not None and it.file != self.fname:
+                    args = [self.ev(a, env) for a in e[2]]
+                    if any(isinstance(a, CX) for a in args):
+                        return self.sub(it.file).call_fn(it, args)
         return super().call(e, env)
 
     def mcall(self, e, env):
@@ -167,6 +176,8 @@ class PMEval(Evaluator):
         if isinstance(rv, CX):
             if argexprs:
                 self.fail(f"complex method {name} with arguments", e)
+            if name == "conj":
+                return CX(f"(Cconj {rv})")
             if name == "inv":
                 return CX(f"(Cinv {rv})")
             if name == "exp":
@@ -218,7 +229,7 @@ class PMEval(Evaluator):
             args = [self.ev(a, env) for a in argexprs]
             if name == "k_eff" and not args:
                 return self.param("p_k_eff")
-            if name == "integration_constant" and len(args) == 2 and args[1] == P("p_L") and self.is_r(args[0]):
+            if name == "integration_constant" and len(args) == 2 and args[1] in (P("p_L"), getattr(self, "length_alias", None)) and self.is_r(args[0]):
                 self.used_params.add("p_apod")
                 return R(self.apod_fmt.format(z=args[0]))
             self.fail(f"spdc.pp.{name}(…) is not a modelled accessor", e)
